@@ -158,43 +158,52 @@ def r5_2(prog, rep):
 
 
 def r5_4(prog, rep):
+    """coding of the effect of a group-specific term: full unless it is not an intercept and (1|same factor) is in the model.
+    Decided on the truth table of the symbolic value handed to set_data."""
+    from .. import symexec as SX
+
     f = prog.fn("terms.terms.Model.eval")
-    loops = [n for n in walk_local(f.node) if isinstance(n, ast.For) and unparse(n.iter) == "self.group_terms" and any(
-        isinstance(x, ast.Call) and isinstance(x.func, ast.Attribute) and x.func.attr == "set_data" for x in ast.walk(n))]
     # grouping the terms by factor with itertools.groupby needs them sorted by factor (they are in formula order)
     shared.groupby_needs_sorted(prog, rep, "R5.4", modules={"formulae.terms.terms"})
+    loops = [n for n in walk_local(f.node) if isinstance(n, ast.For) and unparse(n.iter) == "self.group_terms" and isinstance(n.target, ast.Name)
+             and any(isinstance(x, ast.Call) and isinstance(x.func, ast.Attribute) and x.func.attr == "set_data"
+                     and unparse(x.func.value) == n.target.id for x in ast.walk(n))]
     if len(loops) != 1:
-        rep.defer("R5.4: Model.eval: loop over self.group_terms with set_data not found")
+        rep.defer("R5.4: Model.eval: loop over self.group_terms with <term>.set_data(...) not found")
         return
     lp = loops[0]
-    t = unparse(lp.target)
-    init = [s for s in lp.body if isinstance(s, ast.Assign) and unparse(s.targets[0]) == "encoding"]
-    ok = len(init) == 1 and unparse(init[0].value) == "True" and lp.body.index(init[0]) == 0
-    obl(rep, f, init[0] if init else lp, "R5.4", ok, "the effect coding starts as full (True) for every group-specific term")
-    falses = [s for s in ast.walk(lp) if isinstance(s, ast.Assign) and unparse(s.targets[0]) == "encoding" and unparse(s.value) == "False"]
-    ok = len(falses) == 1
-    conds = []
-    inner_iter = None
+    t = lp.target.id
+    try:
+        ex = SX.SymExec(inline_displays=True).run(lp.body)
+    except AnalysisError as e:
+        rep.defer(f"R5.4: Model.eval: {e}")
+        return
+    calls = [e for e in ex.effects if e[0] == "call" and e[1][0] == f"{t}.set_data"]
+    ok = len(calls) == 1 and calls[0][2] == () and len(calls[0][1][1]) == 1
+    obl(rep, f, calls[0][1][2] if calls else lp, "R5.4", ok, "every group-specific term is evaluated exactly once, unconditionally", "",
+        f"set_data is called {len(calls)} time(s) / under a condition for a group-specific term")
+    if not ok:
+        return
+    v = calls[0][1][1][0]
+    try:
+        atoms, table = SX.bool_table(v)
+    except AnalysisError as e:
+        rep.defer(f"R5.4: coding value `{SX.render(v)}`: {e}")
+        return
+    A = f"isinstance({t}.expr, Intercept)"
+    E = f"any(_u.factor == {t}.factor and isinstance(_u.expr, Intercept) for _u in self.group_terms)"
+    E2 = f"any({t}.factor == _u.factor and isinstance(_u.expr, Intercept) for _u in self.group_terms)"
+    atoms_n = [E if a == E2 else a for a in atoms]
+    ok = sorted(atoms_n) == sorted([A, E])
     if ok:
-        for n in ast.walk(lp):
-            if isinstance(n, (ast.If, ast.For)) and any(falses[0] is x for x in ast.walk(n)) and n is not lp:
-                if isinstance(n, ast.If):
-                    conds.append(unparse(n.test))
-                else:
-                    inner_iter = (unparse(n.target), unparse(n.iter))
-    want_outer = f"not isinstance({t}.expr, Intercept)"
-    ok = ok and inner_iter is not None and inner_iter[1] == "self.group_terms" and want_outer in conds
-    if ok:
-        u = inner_iter[0]
-        rest = [c_ for c_ in conds if c_ != want_outer]
-        ok = len(rest) == 1 and set(x.strip() for x in rest[0].split(" and ")) == {f"{u}.factor == {t}.factor", f"isinstance({u}.expr, Intercept)"}
-    obl(rep, f, falses[0] if falses else lp, "R5.4", ok,
-        "reduced coding iff a group intercept (1|same factor) is in the model: set False only under `same factor and that term's effect is an Intercept`, "
-        "searched over all group terms, and never for the intercept term itself", str(conds),
-        f"the coding rule is {conds} over {inner_iter}: not `reduced iff (1|same factor) is in the model`")
-    sd = [x for x in calls_in(lp) if unparse(x.func) == f"{t}.set_data"]
-    ok = len(sd) == 1 and [unparse(a) for a in sd[0].args] == ["encoding"] and any(isinstance(s, ast.Expr) and s.value is sd[0] for s in lp.body)
-    obl(rep, f, sd[0] if sd else lp, "R5.4", ok, "every group-specific term is evaluated exactly once with that coding")
+        ia, ie = atoms_n.index(A), atoms_n.index(E)
+        for vals, res in table.items():
+            if res != (vals[ia] or not vals[ie]):
+                ok = False
+    obl(rep, f, calls[0][1][2], "R5.4", ok,
+        "the effect is coded in full unless it is not an intercept and a group intercept (1|same factor) is in the model, searched over all group terms",
+        f"coding = {SX.render(v)}",
+        f"the coding handed to set_data is `{SX.render(v)}` (atoms {atoms}): not `intercept or no (1|same factor) among all group-specific terms`")
 
 
 def r5_5(prog, rep):
